@@ -87,6 +87,13 @@ def belowMax (s : Site) (k : α) : Bool :=
 def descValue (s : Site) (c : Cache) (k : α) : α :=
   if belowMax s k then formula s c k else -1
 
+/-- `_validateGBk`: `self.GBk >= self.description.maxRatio` (after the repair; it was `>`, which let
+`k == maxRatio` through to the −1 sentinel of the mask) -/
+def tooLarge (s : Site) (k : α) : Bool :=
+  match maxRatio (α := α) s with
+  | none => false
+  | some m => decide (¬ k < m)
+
 /-! ### NucleationBarrierParameters: cached factors -/
 
 structure NBP (α : Type) where
@@ -151,10 +158,7 @@ def NBP.get (p : NBP α) (c : Cache) : Except Err α × NBP α :=
       match p.getGBk with
       | (.error e, p1) => (.error e, p1)
       | (.ok k, p1) =>
-        let tooLarge : Bool := match maxRatio (α := α) p.site with
-          | none => false
-          | some m => decide (m < k)
-        if tooLarge then (.error .ratio, p1)
+        if tooLarge p.site k then (.error .ratio, p1)
         else
           let v := descValue p.site c k
           (.ok v, p1.store c v)
